@@ -877,9 +877,9 @@ pub fn main(mut chk: Check) -> ! {
             || chk.replay_one::<ConcCase, _>("concurrent-sqlite", &p, |c| conc_oracle(c, 50));
     }
     let t = chk.tier();
-    chk.run("sequential-memory", t.pick(6_000, 150_000), seq_strategy(false), seq_oracle);
-    chk.run("sequential-sqlite", t.pick(1_500, 40_000), seq_strategy(true), seq_oracle);
-    chk.run("concurrent-memory", t.pick(400, 6_000), conc_strategy(false), |c| conc_oracle(c, reps));
+    chk.run("sequential-memory", t.pick(30_000, 300_000), seq_strategy(false), seq_oracle);
+    chk.run("sequential-sqlite", t.pick(2_500, 40_000), seq_strategy(true), seq_oracle);
+    chk.run("concurrent-memory", t.pick(600, 6_000), conc_strategy(false), |c| conc_oracle(c, reps));
     chk.run("concurrent-sqlite", t.pick(60, 1_500), conc_strategy(true), |c| conc_oracle(c, reps));
     chk.run("leftovers-memory", t.pick(60, 1_500), leftover_strategy(false), leftover_oracle);
     chk.run("leftovers-sqlite", t.pick(10, 120), leftover_strategy(true), leftover_oracle);
